@@ -7,14 +7,16 @@ ONLY property statements and non-vacuity examples live here; lemmas are in Proof
 for every worker count `cfg.n`, every finite driver tree `cfg.root`, every fault point (the error /
 cancel actions are enabled at every driver call).
 
-Status summary (see `C17_full` at the end):
+Status summary (see `C17_full` at the end). The LIVE model is the repaired worker error branch
+(`cfg.fixed = true`, hooks/C17-fix.patch; the order-fact tie accepts only that shape):
   proved, all schedules      : pipe_fifo, pipe_complete, pipe_writer_never_waits_on_reader,
-                               bf_counter_inv, bf_no_early_exit, bf_exactly_once, bf_error_cancels,
-                               bf_measure (no step increases, every step decreases the bound),
+                               bf_pipe_refines, bf_counter_inv, bf_no_early_exit, bf_exactly_once,
+                               bf_error_cancels, bf_return_joins_workers, bf_live_ctx_error_recorded,
+                               bf_measure (every step decreases the bound), bf_terminates,
                                limit_skip_window, range_partition_exact
-  proved for the repaired    : bf_terminates          (cfg.fixed = true)
-  code as it is              : bf_terminates_partial  (schedules without a swallowed driver error)
-                               bf_terminates_refuted  (witness: the hang reproduced on the real code)
+  about the OLD protocol     : bf_terminates_refuted_old (witness of finding F14: the hang that was
+                               reproduced on the code before the repair), bf_terminates_partial_old,
+                               c17_full_old_refuted
   stated, not proved         : C17_seq_paths_full (stack DFS = recursive path spec); tested by the tie only
   outside the LTS (observed) : goroutine exit of the pipe after return, wall-clock promptness,
                                the unsynchronised PathSegment.size roll-up
@@ -134,8 +136,8 @@ theorem bf_measure (cfg : Cfg) :
     (∀ as s', BF.run cfg (BF.init cfg) as = some s' → as.length ≤ (BF.init cfg).μ cfg) :=
   ⟨fun _ _ _ h => measure_step h, fun as s' h => by have := run_length_le h; omega⟩
 
-/-- Termination of the repaired protocol (`doneFunc()` on every worker error), all N ≥ 1, all trees,
-all schedules: every reachable state in which BreadthFirst has not returned has an enabled
+/-- Termination (LIVE statement: the repaired protocol, `doneFunc()` on every worker error), all
+N ≥ 1, all trees, all schedules, a fault of any class at any driver call: every reachable state in which BreadthFirst has not returned has an enabled
 non-environment step; together with `bf_measure` every maximal run is finite and ends with
 BreadthFirst returned. Weak fairness is only needed to say that an enabled step is eventually
 taken by the Go scheduler; no fairness between components is required. -/
@@ -145,10 +147,10 @@ theorem bf_terminates (cfg : Cfg) (hn : 1 ≤ cfg.n) (hf : cfg.fixed = true) (s 
   obtain ⟨a, s', he, hs⟩ := progress hn hf (reach_inv h) (reach_inv2 h) hnr
   exact ⟨a, s', he, hs, measure_step hs⟩
 
-/-- Termination of the code AS IT IS, restricted to schedules in which the driver never returns an
-error that `errors.Is` context.Canceled / graph.ErrContextTimedOut while the traversal context is
-live (`BF.ReachNS`). GAP to the full statement: exactly that fault (see `bf_terminates_refuted`). -/
-theorem bf_terminates_partial (cfg : Cfg) (hn : 1 ≤ cfg.n) (s : BF) (h : BF.ReachNS cfg s)
+/-- The protocol BEFORE the repair (`cfg.fixed` arbitrary, in particular `false`) terminates along
+schedules in which the driver never returns an error that `errors.Is` context.Canceled /
+graph.ErrContextTimedOut while the traversal context is live (`BF.ReachNS`). -/
+theorem bf_terminates_partial_old (cfg : Cfg) (hn : 1 ≤ cfg.n) (s : BF) (h : BF.ReachNS cfg s)
     (hnr : ∀ z, s.coord ≠ .ret z) :
     ∃ a s', Act.isEnv a = false ∧ s.step cfg a = some s' ∧ s'.μ cfg < s.μ cfg := by
   obtain ⟨hfs, hr⟩ := reachNS_repaired h
@@ -164,10 +166,11 @@ def hangState : BF :=
             count := 1, compl := 0, err := false, expanded := [.node 0 []], lost := [], dropUnits := 0 },
     coord := .wait, ws := [.exitedFailed] }
 
-/-- The code as it is does NOT always return: after a swallowed driver error the only worker has
-exited, the coordinator waits on `completionC` for ever, the context is live, and no action except
-an external cancellation is enabled. Reproduced on the real code (corpus/C17/c17bf_swallowed.ops). -/
-theorem bf_terminates_refuted :
+/-- Finding F14 as a theorem about the OLD definition (`fixed := false`): after a swallowed driver
+error the only worker has exited, the coordinator waits on `completionC` for ever, the context is
+live, and no action except an external cancellation is enabled. This hang was reproduced on the code
+before the repair (corpus/C17/c17bf_swallowed.ops is now the regression case). -/
+theorem bf_terminates_refuted_old :
     BF.run hangCfg (BF.init hangCfg) hangActs = some hangState ∧
     hangState.coord = .wait ∧ hangState.sh.cancelled = false ∧
     ∀ a s', hangState.step hangCfg a = some s' → a = .cancel := by
@@ -181,6 +184,22 @@ theorem bf_terminates_refuted :
     | succ j => simp [BF.step, hangState] at h
   | cancel => rfl
   | _ => simp [BF.step, hangState, Pipe.step, Shared.cancelled] at h
+
+/-- Recorded-error semantics of the repair: a context.Canceled / ErrContextTimedOut-class worker
+error always cancels the traversal; it is recorded iff the traversal context was still live (or an
+error was recorded already). -/
+theorem bf_live_ctx_error_recorded (cfg : Cfg) (hf : cfg.fixed = true) (sh sh' : Shared) (w' : WState)
+    (h : wstep cfg sh .failedSilent .failSilent = some (sh', w')) :
+    sh'.cancelled = true ∧ sh'.err = (sh.err || !sh.cancelled) ∧ w' = .exitedFailed := by
+  simp only [wstep, hf, if_true, Option.some.injEq, Prod.mk.injEq] at h
+  obtain ⟨rfl, rfl⟩ := h
+  exact ⟨rfl, rfl, rfl⟩
+
+/-- the repaired protocol on the F14 schedule: the error is recorded, the context cancelled, and the
+run goes on to return (contrast `bf_terminates_refuted_old`) -/
+example : (BF.run { hangCfg with fixed := true } (BF.init hangCfg)
+      (hangActs ++ [.cRecvCancel, .cCancel, .pipeExit, .cReturn])).map
+      (fun s => (s.coord, s.sh.err, s.sh.cancelled)) = some (.ret false, true, true) := by decide
 
 /-- Errors cancel and are reported: in every reachable state a recorded error implies the traversal
 context is cancelled; the error flag is never cleared; BreadthFirst returns only after every worker
@@ -326,12 +345,16 @@ def C17_seq_paths_full : Prop :=
       (Seq.loop adj .paths f (Seq.start .paths root skip limit)).outPaths.reverse =
         Seq.window skip limit (Seq.pathsSpec adj f { root := root, steps := [] })
 
-/-- C17 at full strength on the model of the code as it is (`fixed = false`). -/
+/-- C17 at full strength on the LIVE model (repaired worker error branch, `fixed = true`). -/
 def C17_full : Prop :=
+  PipeSpec ∧ (∀ cfg : Cfg, 1 ≤ cfg.n → cfg.fixed = true → BFSafe cfg ∧ BFLive cfg) ∧ SeqCore ∧ C17_seq_paths_full
+
+/-- the same statement for the protocol before the repair -/
+def C17_full_old : Prop :=
   PipeSpec ∧ (∀ cfg : Cfg, 1 ≤ cfg.n → cfg.fixed = false → BFSafe cfg ∧ BFLive cfg) ∧ SeqCore ∧ C17_seq_paths_full
 
-/-- What is proved: everything except liveness under a swallowed driver error and the DFS = spec
-equation. Liveness is proved for the repaired protocol. -/
+/-- What is proved: `C17_full` except the DFS = spec equation (`C17_seq_paths_full`); safety is
+proved for both protocol variants. -/
 def C17_partial : Prop :=
   PipeSpec ∧ (∀ cfg : Cfg, BFSafe cfg) ∧ (∀ cfg : Cfg, 1 ≤ cfg.n → cfg.fixed = true → BFLive cfg) ∧ SeqCore
 
@@ -353,12 +376,16 @@ theorem c17_partial : C17_partial := by
     exact ⟨a, s', he, hs⟩
   · exact ⟨fun skip limit xs => limit_skip_window skip limit xs, fun max stride hs => (range_partition_exact max stride hs).1⟩
 
-/-- The full statement is false for the code as it is: the swallowed-error hang. -/
-theorem c17_full_refuted : ¬ C17_full := by
+/-- the only gap between what is proved and the full statement is the DFS = spec equation -/
+theorem c17_full_of_seq_paths (h : C17_seq_paths_full) : C17_full :=
+  ⟨c17_partial.1, fun cfg hn hf => ⟨c17_partial.2.1 cfg, c17_partial.2.2.1 cfg hn hf⟩, c17_partial.2.2.2, h⟩
+
+/-- The full statement was false for the protocol before the repair: the swallowed-error hang (F14). -/
+theorem c17_full_old_refuted : ¬ C17_full_old := by
   intro h
   obtain ⟨_, hbf, _, _⟩ := h
   obtain ⟨_, _, hlive⟩ := hbf hangCfg (by decide) rfl
-  obtain ⟨hrun, hw, _, hstuck⟩ := bf_terminates_refuted
+  obtain ⟨hrun, hw, _, hstuck⟩ := bf_terminates_refuted_old
   have hr : BF.Reach hangCfg hangState := reach_run BF.Reach.init hrun
   obtain ⟨a, s', he, hs⟩ := hlive hangState hr (by intro z hc; rw [hw] at hc; cases hc)
   rw [hstuck a s' hs] at he
